@@ -332,6 +332,26 @@ Proof.
     rewrite (parse_loop_complete P0 ts t es Hd (S (S (length d))) t0 r0 r [] Hl) by lia. reflexivity.
 Qed.
 
+(* fuel adequacy, every input: the fuel length + 2 that parse gives parse_loop is enough - any larger
+   amount gives the same answer, so a None of parse is a rejection by the grammar, never "out of fuel" *)
+Theorem parse_fuel_adequate d fuel :
+  (S (S (length d)) <= fuel)%nat ->
+  (let '(t, r) := scan d in parse_loop fuel P0 t r []) = parse d.
+Proof.
+  intros Hf. unfold parse. destruct (scan d) as [t0 r0] eqn:Sc.
+  assert (K : forall f1 f2 x, (S (S (length d)) <= f2)%nat ->
+                              parse_loop f1 P0 t0 r0 [] = Some x -> parse_loop f2 P0 t0 r0 [] = Some x).
+  { intros f1 f2 [[es t] r] H2 H. destruct (parse_loop_sound _ _ _ _ _ _ _ _ H) as [ts [es' [Hs [Hg He]]]].
+    simpl in He. subst es'.
+    pose proof (proj2 (lexes_stream ts d t0 r0 t r Sc) Hs) as Hl.
+    pose proof (lexes_len _ _ _ _ Hl (G_real _ _ _ _ Hg)) as Hlen.
+    rewrite (parse_loop_complete P0 ts t es Hg f2 t0 r0 r [] Hs) by lia. reflexivity. }
+  destruct (parse_loop fuel P0 t0 r0 []) as [x|] eqn:A.
+  - symmetry. apply (K fuel); [lia|exact A].
+  - destruct (parse_loop (S (S (length d))) P0 t0 r0 []) as [y|] eqn:B; [|reflexivity].
+    rewrite (K _ fuel y Hf B) in A. discriminate.
+Qed.
+
 (* parse fails exactly on the byte strings that do not start with a descriptor *)
 Corollary parse_none_iff d : parse d = None <-> forall es t r, ~ denotes d es t r.
 Proof.
